@@ -5,6 +5,7 @@ import (
 	"time"
 
 	sdk "github.com/cosmos/cosmos-sdk/types"
+	banktypes "github.com/cosmos/cosmos-sdk/x/bank/types"
 
 	"github.com/comdex-official/comdex/app/wasm/bindings"
 	assettypes "github.com/comdex-official/comdex/x/asset/types"
@@ -178,6 +179,7 @@ func (w *world) base(uopt2 string) {
 	w.ratesPool(a4, "0.65", "0.002", "0.08", "1.5", "0.6", "0.65", "0.05", "0.05", "0.2", c4, "osmo", "OSMO-ATOM-CMST",
 		[]*lendtypes.AssetDataPoolMapping{p2a4, p1a1, p1a3})
 	gov := w.addAsset("HARBOR", "uharbor", false, 0)
+	w.addAsset("CMDX", "ucmdx", false, 0) // the liquidity module's swap-fee distribution denom
 	w.addApp("cswap", "cswap")
 	w.addAppGov("harbor", "hbr", gov, w.user("u4"))
 	w.addApp("commodo", "cmdo")
@@ -353,4 +355,21 @@ func (w *world) pairID(in, out, outPool uint64) uint64 {
 		}
 	}
 	panic("lend pair not found")
+}
+
+// feeTrap: in the given app a pair (asset 4 / ucmdx) with a pool that never traded; somebody bank-sends asset-4 coins to the
+// pair's swap-fee collector address (anyone can): at the next height divisible by 150 the swap-fee conversion has a coin
+// that is routable to the distribution denom through a pair without a last price.
+func (w *world) feeTrap(app string) {
+	id := w.app[app]
+	w.deliver(liquiditytypes.NewMsgCreatePair(id, w.Users["u1"], "uasset4", "ucmdx"), "create pair a4/cmdx")
+	var pairID uint64
+	for _, p := range w.App.LiquidityKeeper.GetAllPairs(w.Ctx, id) {
+		if p.BaseCoinDenom == "uasset4" && p.QuoteCoinDenom == "ucmdx" {
+			pairID = p.Id
+		}
+	}
+	w.deliver(liquiditytypes.NewMsgCreatePool(id, w.Users["u1"], pairID, sdk.NewCoins(coin("uasset4", 100000000), coin("ucmdx", 100000000))), "create pool a4/cmdx")
+	pair, _ := w.App.LiquidityKeeper.GetPair(w.Ctx, id, pairID)
+	w.deliver(banktypes.NewMsgSend(w.Users["u3"], pair.GetSwapFeeCollectorAddress(), sdk.NewCoins(coin("uasset4", 5000))), "send to fee collector")
 }
